@@ -173,4 +173,135 @@ theorem decode_data_too_much_padding (r : Reader) (bytes : Bytes) (hp : r.partia
       have : t.length + 1 ≤ a := by simpa [hpl] using hl
       simp [hp, hk, loadData, hs, hpad, stripPadding, hpl, this]
 
+-- ===================================================================== SETTINGS values (§6.5.2)
+
+/-- a setting whose value RFC 9113 §6.5.2 forbids: ENABLE_PUSH / ENABLE_CONNECT_PROTOCOL above 1,
+    INITIAL_WINDOW_SIZE above 2^31-1, MAX_FRAME_SIZE outside [2^14, 2^24-1] -/
+def InvalidSetting (id val : Nat) : Prop :=
+  ((id = 2 ∨ id = 8) ∧ val > 1) ∨ (id = 4 ∧ val > 2147483647) ∨ (id = 5 ∧ (val < 16384 ∨ val > 16777215))
+
+theorem applySetting_invalid (acc : List (Nat × Nat)) (id val : Nat) (h : InvalidSetting id val) :
+    applySetting acc id val = none := by
+  unfold applySetting
+  simp only [Generated.Consts.MAX_INITIAL_WINDOW_SIZE, Generated.Consts.DEFAULT_MAX_FRAME_SIZE,
+    Generated.Consts.MAX_MAX_FRAME_SIZE]
+  rcases h with ⟨h1 | h1, h2⟩ | ⟨h1, h2⟩ | ⟨h1, h2⟩
+  · subst h1; simp; omega
+  · subst h1; simp; omega
+  · subst h1; simp; omega
+  · subst h1; simp; omega
+
+/-- unknown settings are ignored, the accumulated values are untouched -/
+theorem applySetting_unknown (acc : List (Nat × Nat)) (id val : Nat)
+    (h : id ≠ 1 ∧ id ≠ 2 ∧ id ≠ 3 ∧ id ≠ 4 ∧ id ≠ 5 ∧ id ≠ 6 ∧ id ≠ 8) : applySetting acc id val = some acc := by
+  unfold applySetting
+  obtain ⟨h1, h2, h3, h4, h5, h6, h8⟩ := h
+  simp [h1, h2, h3, h4, h5, h6, h8]
+
+/-- the `n`-th 6-octet entry of a SETTINGS payload is invalid ⇒ the loop fails -/
+theorem settingsLoop_invalid : ∀ (n fuel : Nat) (p : Bytes) (acc : List (Nat × Nat)), n < fuel → 6 * n + 6 ≤ p.length →
+    InvalidSetting (rd16 (p.drop (6 * n))) (rd32 (p.drop (6 * n + 2))) →
+    settingsLoop fuel p acc = .error .invalidSettingValue := by
+  intro n
+  induction n with
+  | zero =>
+    intro fuel p acc hf hl hi
+    cases fuel with
+    | zero => omega
+    | succ f =>
+      unfold settingsLoop
+      have : ¬ p.length < 6 := by omega
+      simp only [this, if_false]
+      simp only [Nat.mul_zero, List.drop_zero, Nat.zero_add] at hi
+      rw [applySetting_invalid acc _ _ hi]
+  | succ n ih =>
+    intro fuel p acc hf hl hi
+    cases fuel with
+    | zero => omega
+    | succ f =>
+      unfold settingsLoop
+      have : ¬ p.length < 6 := by omega
+      simp only [this, if_false]
+      cases ha : applySetting acc (rd16 p) (rd32 (p.drop 2)) with
+      | none => rfl
+      | some acc' =>
+        dsimp only
+        apply ih f (p.drop 6) acc' (by omega) (by simp; omega)
+        have e1 : 6 + 6 * n = 6 * (n + 1) := by omega
+        have e2 : 6 + (6 * n + 2) = 6 * (n + 1) + 2 := by omega
+        simpa [List.drop_drop, e1, e2] using hi
+
+/-- **a SETTINGS frame carrying a forbidden value (ENABLE_PUSH = 2, INITIAL_WINDOW_SIZE = 2^31,
+    MAX_FRAME_SIZE = 2^14 - 1, …) at any position is a connection error** -/
+theorem decode_settings_invalid_value (r : Reader) (bytes : Bytes) (n : Nat) (hp : r.partialBlk = none)
+    (hk : (hd bytes).kind = 4) (ha : (hd bytes).flag &&& 1 ≠ 1) (hl : 6 * n + 6 ≤ (pl bytes).length)
+    (hi : InvalidSetting (rd16 ((pl bytes).drop (6 * n))) (rd32 ((pl bytes).drop (6 * n + 2)))) :
+    decodeFrame r bytes = (r, connErr) := by
+  unfold decodeFrame
+  have hpn : r.partialBlk.isSome = false := by simp [hp]
+  simp only [hpn, Bool.false_eq_true, false_and, if_false, hk]
+  unfold loadSettings
+  by_cases hs : (Head.parse bytes).sid = 0
+  · have hs' : ¬ (Head.parse bytes).sid ≠ 0 := by simp [hs]
+    simp only [hs', if_false, ha]
+    by_cases hm : (List.drop 9 bytes).length % 6 ≠ 0
+    · rw [if_pos hm]
+    · rw [if_neg hm]
+      have hfuel : n < (List.drop 9 bytes).length / 6 + 1 := by
+        have : 6 * n + 6 ≤ (List.drop 9 bytes).length := hl
+        omega
+      rw [settingsLoop_invalid n _ _ [] hfuel hl hi]
+  · have hs' : (Head.parse bytes).sid ≠ 0 := hs
+    rw [if_pos hs']
+
+-- ===================================================================== what is tolerated
+
+/-- a frame of unknown type outside a header block is skipped: no frame, no error, reader untouched -/
+theorem decode_unknown_type (r : Reader) (bytes : Bytes) (hp : r.partialBlk = none)
+    (hk : (hd bytes).kind > 9) : decodeFrame r bytes = (r, .none) := by
+  unfold decodeFrame
+  have hpn : r.partialBlk.isSome = false := by simp [hp]
+  simp only [hpn, Bool.false_eq_true, false_and, if_false]
+  have hk' : (Head.parse bytes).kind > 9 := hk
+  split <;> first | omega | rfl
+
+/-- PRIORITY on any non-zero stream (idle, open, closed) with a dependency other than itself is
+    decoded to a PRIORITY frame — which `recv_frame` drops without looking at the stream -/
+theorem decode_priority_ok (r : Reader) (bytes : Bytes) (hp : r.partialBlk = none)
+    (hk : (hd bytes).kind = 2) (hs : (hd bytes).sid ≠ 0) (hl : (pl bytes).length = 5)
+    (hdep : (parseStreamId (pl bytes)).1 ≠ (hd bytes).sid) :
+    decodeFrame r bytes = (r, .frame (.priority (hd bytes).sid (parseStreamId (pl bytes)).1 ((pl bytes).getD 4 0)
+      (parseStreamId (pl bytes)).2)) := by
+  unfold decodeFrame
+  have hpn : r.partialBlk.isSome = false := by simp [hp]
+  simp only [hpn, Bool.false_eq_true, false_and, if_false, hk]
+  have hs' : ¬ (Head.parse bytes).sid = 0 := hs
+  simp only [hs', if_false]
+  unfold loadPriority
+  have hl' : ¬ (List.drop 9 bytes).length ≠ 5 := by simp [hl]
+  have hdep' : ¬ (parseStreamId (List.drop 9 bytes)).1 = (Head.parse bytes).sid := hdep
+  simp only [hl', if_false, hdep']
+
+/-- padded DATA with a pad length below the payload length is decoded to a DATA frame whose payload
+    is the data without the padding -/
+theorem decode_data_padded_ok (r : Reader) (bytes : Bytes) (padLen : Nat) (rest : Bytes)
+    (hp : r.partialBlk = none) (hk : (hd bytes).kind = 0) (hs : (hd bytes).sid ≠ 0)
+    (hpad : (hd bytes).flag &&& 9 &&& 8 = 8) (hpl : pl bytes = padLen :: rest) (hlt : padLen < rest.length + 1) :
+    decodeFrame r bytes = (r, .frame (.data (hd bytes).sid (rest.take (rest.length - padLen))
+      ((hd bytes).flag &&& 9 &&& 1 = 1) (some padLen))) := by
+  unfold decodeFrame
+  have hpn : r.partialBlk.isSome = false := by simp [hp]
+  simp only [hpn, Bool.false_eq_true, false_and, if_false, hk]
+  unfold loadData
+  have hs' : ¬ (Head.parse bytes).sid = 0 := hs
+  have hpl' : List.drop 9 bytes = padLen :: rest := hpl
+  have hpad' : (Head.parse bytes).flag &&& 9 &&& 8 = 8 := hpad
+  simp only [hs', if_false, hpad', if_true, hpl']
+  unfold stripPadding
+  have : ¬ padLen ≥ (padLen :: rest).length := by simp; omega
+  simp only [this, if_false]
+  simp only [List.length_cons]
+  have e : rest.length + 1 - padLen - 1 = rest.length - padLen := by omega
+  rw [e]
+
 end H2V.Lemmas.ConnCtlP
